@@ -337,9 +337,9 @@ pub fn run(ctx: &mut Ctx) {
         "NoiseSocket reports every carrier EOF as UnexpectedEof, so for drop/swap of the last frame (undetectable by construction) only the prefix bound is demanded".into(),
     ];
     let t = ctx.tier;
-    ctx.campaign("honest-small", CampaignCfg::new(t.pick(1_500, 40_000)).shards(16), || strategy(false, false), run_case);
-    ctx.campaign("honest-big", CampaignCfg::new(t.pick(600, 15_000)).shards(16).shrink_iters(400), || strategy(false, true), run_case);
-    ctx.campaign("attack", CampaignCfg::new(t.pick(1_500, 40_000)).shards(16).shrink_iters(600), || strategy(true, false), run_case);
-    ctx.campaign("attack-big", CampaignCfg::new(t.pick(300, 8_000)).shards(16).shrink_iters(300), || strategy(true, true), run_case);
+    ctx.campaign("honest-small", CampaignCfg::new(t.pick(1_500, 160_000)).shards(16), || strategy(false, false), run_case);
+    ctx.campaign("honest-big", CampaignCfg::new(t.pick(600, 60_000)).shards(16).shrink_iters(400), || strategy(false, true), run_case);
+    ctx.campaign("attack", CampaignCfg::new(t.pick(1_500, 160_000)).shards(16).shrink_iters(600), || strategy(true, false), run_case);
+    ctx.campaign("attack-big", CampaignCfg::new(t.pick(300, 32_000)).shards(16).shrink_iters(300), || strategy(true, true), run_case);
     let _: Option<&dyn AsyncWrite> = None;
 }
